@@ -4,7 +4,7 @@
 import z3
 
 from pyvc import values as V, ops
-from spec.wire import spec, cat, u8, u16, u32, u64, le, vec, num, seq, flags_value, SPECS, NoSpec
+from spec.wire import spec, cat, u8, u16, u32, u64, le, vec, num, seq, flags_value, flag_present, SPECS, NoSpec
 
 # ---- RFC 1006 6: TPKT header: version 3, reserved 0, 16 bit length INCLUDING the 4 header bytes
 @spec('TPKT')
@@ -63,3 +63,31 @@ SPECS['OpenVpnPacketHardResetClientV2'] = lambda o: cat(openvpn_header(o, 7), u3
 SPECS['OpenVpnPacketHardResetServerV2'] = lambda o: cat(openvpn_header(o, 8), u32(o.f['packet_id']))
 # OpenVPN over TCP: 16 bit big-endian packet length, then the packet
 SPECS['OpenVpnPacketWrapperTcp'] = lambda o: vec(2, o.f['payload'])
+
+
+# ---- MySQL Protocol::HandshakeV10 (all integers little endian):
+#      int<1> protocol version, string<NUL> server version, int<4> thread id, string[8] auth-plugin-data-part-1,
+#      int<1> filler 0x00, int<2> capability flags (lower 2 bytes), int<1> character set, int<2> status flags,
+#      int<2> capability flags (upper 2 bytes), int<1> length of auth-plugin-data if CLIENT_PLUGIN_AUTH else 0x00,
+#      string[10] reserved (all zero), auth-plugin-data-part-2, and string<NUL> auth_plugin_name if CLIENT_PLUGIN_AUTH
+def _opt_bytes(x):
+    return V.conc_seq(b'', 'bytes') if x is None else seq(x)
+
+
+@spec('MySQLHandshakeV10')
+def mysql_handshake_v10(o):
+    from cryptoparser.tls.mysql import MySQLCapability
+    caps = o.f['capabilities']
+    plugin_auth = flag_present(caps, MySQLCapability.CLIENT_PLUGIN_AUTH)
+    part2 = _opt_bytes(o.f['auth_plugin_data_2'])
+    parts = [u8(o.f['protocol_version']), seq(o.f['server_version']), u8(0), le(o.f['connection_id'], 4),
+             seq(o.f['auth_plugin_data']), u8(0), le(flags_value(caps, 0, 16), 2), u8(o.f['character_set']),
+             le(flags_value(o.f['states']), 2), le(flags_value(caps, 16, 16), 2)]
+    if plugin_auth:
+        parts.append(u8(8 + part2.n))
+    else:
+        parts.append(u8(0))
+    parts += [V.conc_seq(bytes(10), 'bytes'), part2]
+    if plugin_auth:
+        parts += [seq(o.f['auth_plugin_name']), u8(0)]
+    return cat(*parts)
